@@ -43,7 +43,7 @@ def event_text(c, e):
     for _ in range(2):
         n = int(t[i]); i += 1 + 2 * n
     nev = int(t[i]); i += 1
-    width = {b"udp": 5, b"accept": 4, b"data": 3, b"close": 2, b"badd": 3, b"brem": 3}
+    width = {b"udp": 5, b"accept": 4, b"data": 3, b"close": 2, b"badd": 3, b"brem": 3, b"bdata": 4, b"bclose": 3}
     for k in range(nev):
         w = width.get(t[i], 1)
         if k == e:
@@ -121,12 +121,35 @@ def explore(ctx, pid, cases, judges, nontrivial=None, known_key=None, max_failur
         if f is None:
             agree += 1
         elif len(failures) < max_failures:
-            f.update({"component": "proxy", "case_id": c.id, "case_line": c.line(), "meta": c.meta})
+            f.update({"component": c.comp, "case_id": c.id, "case_line": c.line(), "meta": c.meta})
             if known_key:
                 f["key"] = known_key(c, f)
             failures.append(f)
     cov = {"evaluations": len(cases), "distinct_nontrivial": nontriv, "traces_validated_against_impl": agree,
            "messages_observed": outputs, "events": sum(c.meta["events"] for c in cases)}
+    return cov, failures
+
+
+def explore_tb(ctx, pid, judges, cov, failures, quick=60, thorough=1500):
+    """the same property with backends reached over TCP (component "proxytb", model ProxyTB.proxy_step_tb): histories of
+    proxyflows.tb_history through the real proxy, differential + the property's judges in their proxytb form.  The
+    result is folded into the property's coverage and failure list."""
+    import proxyflows as pf
+    n = quick if ctx["tier"] == "quick" else thorough
+    blocks = pg.alloc_blocks(n)
+    cases = []
+    for i in range(n):
+        f = pf.tb_history(ctx["rng"], blocks[i])
+        cases.append(f.s.case("tb%d" % i, {"kind": "tcp-backends", "backends": len(f.backends)}))
+    c2, f2 = explore(ctx, pid, cases, judges,
+                     nontrivial=lambda c, ni: any(l.startswith(b"conn:") for outs, _ in ni for l, _ in outs))
+    cov["tcp_backend_cases"] = {"evaluations": c2["evaluations"], "distinct_nontrivial": c2["distinct_nontrivial"],
+                                "traces_validated_against_impl": c2["traces_validated_against_impl"], "events": c2["events"],
+                                "judges": judges}
+    for k in ("evaluations", "distinct_nontrivial", "traces_validated_against_impl", "messages_observed", "events"):
+        if k in cov and k in c2:
+            cov[k] += c2[k]
+    failures.extend(f2)
     return cov, failures
 
 
